@@ -226,7 +226,8 @@ LawFails(j) ==
             Bind(onearch /\ c(1) = c(2), "same-binding")
             \cup Law(v(1) = v(2) /\ R[1].obs = R[2].obs, "C15", "same-configuration-differs")
       [] j.law = "rename" ->      \* one abstract world and rule under two injective component renamings
-            Bind(onearch /\ c(1) = c(2), "rename-binding")
+            Bind(c(1) = c(2), "rename-binding")
+            \cup Law(onearch, "C14", "renaming-changes-the-architecture-built-from-the-same-modules-and-imports")
             \cup Law(v(1) = v(2), "C14", "renaming-changes-verdict")
             \cup Law(R[1].obs = R[2].obs, "C14", "renaming-changes-message")
       [] j.law = "mono" ->
